@@ -605,8 +605,8 @@ pub fn run(cfg: &Cfg, rep: &mut Report) {
 
   // thread part: 2-3 threads each running a history on clones of one SubjectThreads (baton scheduler)
   let n = cfg.n(12_000, 600_000);
-  super::thr::systematic_families(cfg, rep, 0xC06A, &[0, 0, 0], &|_, _| {}, &|o, _| super::thr::must_receive(o).or_else(|| super::thr::common_order(o)));
+  super::thr::systematic_families(cfg, rep, 0xC06A, &[0, 0, 0], &|_, _| {}, &|o, _| super::thr::must_receive(o).or_else(|| super::thr::common_order(o)).or_else(|| super::thr::terminal_consistency(o)));
   super::thr::campaign(cfg, rep, "thr", n, 0xC06F, &mut |r: &mut Rng| super::thr::random_scen(r, 0), &|o, _| {
-    super::thr::must_receive(o).or_else(|| super::thr::common_order(o))
+    super::thr::must_receive(o).or_else(|| super::thr::common_order(o)).or_else(|| super::thr::terminal_consistency(o))
   });
 }
